@@ -65,15 +65,22 @@ def run(tier):
     sim = common.run_tlc("MCVariants", "MCVariants_shadow.cfg", workers=1,
                          extra=["-simulate", "num=%d" % (2500 if tier == "quick" else 15000), "-depth", "40",
                                 "-seed", str(common.seed() + 11)])
-    seen = set()
-    deep = []
-    for b in sim.tagged("CASE"):
-        k = json.dumps(b["q"], sort_keys=True)
-        if k not in seen:
-            seen.add(k)
-            deep.append(b)
-    deep = deep[:200 if tier == "quick" else 1500]
-    bases = bases + deep
+    sim2 = common.run_tlc("MCVariants", "MCVariants_siblings.cfg", workers=1,
+                          extra=["-simulate", "num=%d" % (2500 if tier == "quick" else 15000), "-depth", "48",
+                                 "-seed", str(common.seed() + 12)])
+    for s_ in (sim, sim2):
+        seen = set()
+        deep = []
+        for b in s_.tagged("CASE"):
+            k = json.dumps(b["q"], sort_keys=True)
+            if k not in seen:
+                seen.add(k)
+                deep.append(b)
+        bases = bases + deep[:200 if tier == "quick" else 1500]
+    # one lambda holding several sibling lambdas, inside a chained step (spec/MCSiblings.tla)
+    sib = common.run_tlc("MCSiblings", "MCSiblings.cfg").tagged("CASE")
+    sib.sort(key=lambda b: json.dumps(b["q"], sort_keys=True))
+    bases = bases + (rnd.sample(sib, 80) if tier == "quick" else sib)
     events, er = pipeline.generate_events(6)
     backends = ("atlas", "cms_aod", "cms_miniaod")
     jobs = []
